@@ -44,13 +44,17 @@ Fixpoint split_lines (l : bytes) : list bytes :=
            end
   end.
 
+(** Linear-time list reversal (the library's [rev] is quadratic; 8 KiB single-line contents
+    are evaluated by the correspondence check). *)
+Definition lrev (l : bytes) : bytes := rev_append l [].
+
 (** trim_last_eol: strip_suffix "\r\n", else strip_suffix "\n". *)
 Definition trim_last_eol (line : bytes) : option bytes :=
-  match rev line with
+  match lrev line with
   | a :: r =>
       if a =? 10 then
         match r with
-        | b :: r' => if b =? 13 then Some (rev r') else Some (rev r)
+        | b :: r' => if b =? 13 then Some (lrev r') else Some (lrev r)
         | [] => Some []
         end
       else None
